@@ -58,7 +58,30 @@ structure Lib (α : Type) where
   translator pins that text and the exact model uses the algebraic meaning, see `dnhyperQ` / `dnhyperF`) -/
   dnhyper : Hgd → Int → Int → α → List α
 
-/-! ## JVM `Int` (modelled by unbounded `Int`; absence of 32-bit overflow is an assumption of C37) -/
+/-! ## JVM `Int` / `Long`
+
+Exact model (`Exact`): unbounded `Int`; the theorems state the no-overflow side condition (`StatsSpec.int32Safe`) under which this
+is the JVM semantics. Float model (`Flt`): two's-complement wrapping 32-bit (`Int`) and 64-bit (`Long`) arithmetic, operation by
+operation, with Int → Double widening exactly where the Scala's static types put it (the translator knows them). -/
+
+/-- reduce to the signed 32-bit range -/
+def wrap32 (x : Int) : Int := let m := x % 4294967296; if m ≥ 2147483648 then m - 4294967296 else m
+/-- reduce to the signed 64-bit range -/
+def wrap64 (x : Int) : Int := let m := x % 18446744073709551616; if m ≥ 9223372036854775808 then m - 18446744073709551616 else m
+
+def i32add (a b : Int) : Int := wrap32 (a + b)
+def i32sub (a b : Int) : Int := wrap32 (a - b)
+def i32mul (a b : Int) : Int := wrap32 (a * b)
+def i32neg (a : Int) : Int := wrap32 (-a)
+/-- the translator only admits non-zero literal divisors (division by zero would be an ArithmeticException) -/
+def i32div (a b : Int) : Int := wrap32 (Int.tdiv a b)
+def i32mod (a b : Int) : Int := Int.tmod a b
+def i64add (a b : Int) : Int := wrap64 (a + b)
+def i64sub (a b : Int) : Int := wrap64 (a - b)
+def i64mul (a b : Int) : Int := wrap64 (a * b)
+def i64neg (a : Int) : Int := wrap64 (-a)
+def i64div (a b : Int) : Int := wrap64 (Int.tdiv a b)
+def i64mod (a b : Int) : Int := Int.tmod a b
 
 /-- JVM `a / b` on `Int`: truncation toward zero -/
 def idiv (a b : Int) : Int := Int.tdiv a b
@@ -104,6 +127,10 @@ def rangeIncl (lo hi : Int) : List Int := (List.range (hi + 1 - lo).toNat).map f
 /-! ## exact domain -/
 
 def absQ (a : Rat) : Rat := if a < 0 then -a else a
+/-- `x.toInt` / `x.toLong` on a Double in the exact model: truncation toward zero (no saturation: unbounded `Int`) -/
+def truncQ (x : Rat) : Int := if x < 0 then -((-x).floor) else x.floor
+def floorQ (x : Rat) : Rat := (x.floor : Int)
+def ceilQ (x : Rat) : Rat := (-((-x).floor) : Int)
 /-- `math.round(x)` = ⌊x + 1/2⌋ -/
 def roundQ (x : Rat) : Int := (x + 1 / 2).floor
 
@@ -114,6 +141,25 @@ def nanF : Float := 0.0 / 0.0
 
 /-- `math.max` on doubles (NaN if either is NaN) -/
 def fmax (a b : Float) : Float := if a.isNaN then a else if b.isNaN then b else if a < b then b else a
+
+/-- `math.min` on doubles (NaN if either is NaN) -/
+def fmin (a b : Float) : Float := if a.isNaN then a else if b.isNaN then b else if b < a then b else a
+
+/-- truncation toward zero of a finite double as an exact integer -/
+def truncF (x : Float) : Int :=
+  let t := if x < 0.0 then x.ceil else x.floor
+  let b := t.abs.toBits.toNat
+  let e := (b / 2 ^ 52) % 2048
+  let m := b % 2 ^ 52
+  let mag : Nat := if e = 0 then 0 else if e ≥ 1075 then (m + 2 ^ 52) * 2 ^ (e - 1075) else (m + 2 ^ 52) / 2 ^ (1075 - e)
+  if x < 0.0 then -(mag : Int) else (mag : Int)
+
+/-- JVM `d.toInt`: NaN ↦ 0, saturating at Int.MinValue / Int.MaxValue, otherwise truncation toward zero -/
+def dblToInt32 (x : Float) : Int :=
+  if x.isNaN then 0 else if x ≥ 2147483647.0 then 2147483647 else if x ≤ -2147483648.0 then -2147483648 else truncF x
+/-- JVM `d.toLong` -/
+def dblToInt64 (x : Float) : Int :=
+  if x.isNaN then 0 else if x ≥ 9223372036854775807.0 then 9223372036854775807 else if x ≤ -9223372036854775808.0 then -9223372036854775808 else truncF x
 
 /-- `math.round(x)`: ⌊x + 1/2⌋ computed without the rounding of `x + 0.5` (`x - floor x` is exact); NaN ↦ 0 as in Java.
 Only called on values of magnitude far below 2^63. -/
